@@ -200,10 +200,13 @@ class Check:
     def build_driver(self):
         rc, out, dt = sh(["lake", "build", "driver"], cwd=LEAN, timeout=3000)
         self.cov["driver_build_s"] = round(dt, 1)
+        self.driver_ok = (rc == 0)
         if rc != 0:
+            # the executable models no longer build against the regenerated code: every stream is undecided (a violation
+            # without a concrete input); the monitors still run on the implementation and may supply one
             self.notes.append({"driver_build_failed": out[-1500:]})
-            self.violation("driver-build", "the Lean model driver does not build", {"lake_output_tail": out[-1500:]}, False)
-            return False
+            self.violation("driver-build", "the Lean model driver does not build against the regenerated model: no correspondence stream can run",
+                           {"lake_output_tail": out[-1500:]}, False)
         return True
 
     def stream(self, name, harness_args, driver_mode, prefix_arg_index=None, between=None):
@@ -212,6 +215,9 @@ class Check:
         since the last `reset` (the minimal context in which it replays)."""
         work = os.path.join(VERIF, ".work")
         os.makedirs(work, exist_ok=True)
+        if not getattr(self, "driver_ok", True):
+            self.streams[name] = {"error": "driver not built", "cases": 0}
+            return self.streams[name]
         prefix = os.path.join(work, "%s_%s" % (self.pid, name))
         args = list(harness_args) + [prefix]
         rc, out, dt = self.harness(args)
